@@ -48,6 +48,10 @@ pub struct NetCfg {
     /// and `secret` holds what the operator wrote
     #[serde(default)]
     pub secret_source: Option<(u8, usize)>,
+    /// (with `use_start`) the localization tables of `services.localization` are put into the configuration
+    /// (otherwise the application's shipped defaults apply)
+    #[serde(default)]
+    pub localization_from_services: bool,
 }
 
 impl Default for NetCfg {
@@ -62,6 +66,7 @@ impl Default for NetCfg {
             use_start: false,
             agones: false,
             secret_source: None,
+            localization_from_services: false,
         }
     }
 }
@@ -232,6 +237,13 @@ fn build_start_config(sc: &NetScenario) -> passage::config::Config {
     } else {
         pc::DiscoveryAdapter::Fixed(pc::FixedDiscovery { targets })
     };
+    if sc.cfg.localization_from_services {
+        let l = &sc.services.localization;
+        c.adapters.localization = pc::LocalizationAdapter::Fixed(pc::FixedLocalization {
+            default_locale: l.default_locale.clone(),
+            messages: l.messages.iter().map(|(k, t)| (k.clone(), t.iter().map(|(a, b)| (a.clone(), b.clone())).collect())).collect(),
+        });
+    }
     c.adapters.filter = vec![];
     c.adapters.strategy = pc::StrategyAdapter::Any;
     let profile = match &sc.services.auth.default.res {
